@@ -3,13 +3,13 @@ import json, random
 from collections import Counter
 import common, docrun, gen, pool, docs, e2e, drv
 
-THEOREMS = ["Cost.costs_append"]
+THEOREMS = ["Cost.costs_append", "Cost.costs_flag", "Cost.saving_flag", "Cost.selection_frame", "Cost.selection_names"]
 
 
 def run(tier):
     sd = common.seed()
     rng = random.Random(sd * 389 + 29)
-    po = common.proof_obligations("GasolVerif.Proofs.CostSound", THEOREMS)
+    po = common.proof_obligations("GasolVerif.Proofs.FlagSound", THEOREMS)
     violations = [{"kind": "broken-proof-obligation", "what": b, "no_failing_input": True, "input": b} for b in po["broken"]]
     c = Counter()
     # (a) documents with PUSH0 disabled / enabled
@@ -90,8 +90,15 @@ def run(tier):
                    "length of input and output are compared with the Lean reference computed with the same flag; -c <contract> must yield exactly "
                    "that contract's assembly of the full run",
            "samples": [{"document": dl[0][0]}], "counters": dict(c)}
-    return {"level": "exploration", "coverage": cov, "violations": violations,
-            "assumptions": ["differential check; the Lean side contributes the independent cost function only"]}
+    cov.update({"axioms": po["axioms"], "programs": c["plain-blocks"] + c["blocks"], "disagreements_checked": c["cost-comparisons"],
+                "checker_cmd": "cd lean && lake build GasolVerif gvdrv; #print axioms " + ", ".join(THEOREMS),
+                "trusted_base": ["Lean 4.33 kernel", "axioms: propext, Classical.choice, Quot.sound",
+                                 "Models/Cost.lean as the reference price list (tied to the tool by the cost comparison on every input and output block, both flag values)",
+                                 "emission of PUSH0 and the contract filter are observed on real runs, not modelled"]})
+    return {"level": "translation_validation", "coverage": cov, "violations": violations,
+            "assumptions": ["pricing clause: Cost.costs_flag / saving_flag (kernel-checked) say what the flag may change in the reference cost; the tool's "
+                            "costs are compared with that reference under the same flag on every block; emission and contract selection are differential "
+                            "observations of real runs (selection_frame states the contract on a model of the filter only)"]}
 
 
 def replay(v):
